@@ -101,6 +101,9 @@ HISTORY.update({
     "b3_C20_2": "caught as built", "b3_C20_3": "caught as built",
 })
 DROPPED = {
+    "C03_3": "obsolete: the change (a derivation building ExactDifferential(symbols.momentum) in a dynamics law) broke C03 only through the wrapper-alias defect of the "
+             "pinned tree (Symbolic objects shared through SymPy's name-keyed cache). That defect was repaired in 6afdd9a; on the repaired tree the demonstration "
+             "passes with the patch applied and the checks are rightly silent. The defect itself is re-introduced by self-test mutant b4-wrapper-cached-by-display-name-regression",
     "C05_1": "superseded: the agent's patch edited the running-extremum logic of _collect_min_max, which the repair of the genuine defect found through "
              "the same agent's notes (fix 2abe7fe) replaced; the patch no longer applies and its effect is covered by self-test mutant c05-running-sum-regression",
 }
